@@ -622,10 +622,20 @@ pub fn run_loopback(ctx: Ctx) -> Report {
         rep.evaluations += inputs.len() as u64;
         rep.distinct.insert(hash_str("listeners"));
         rep.distinct.insert(hash_str("listeners2"));
+        // a few peers that connect, send nothing or a fragment, and stay (slow loris): held open while the well-formed
+        // requests below are served
+        let mut held = Vec::new();
+        for (addr, pre) in [(&socks, &b""[..]), (&socks, &[5u8][..]), (&socks, &[5u8, 1, 0, 5, 1][..]), (&http, &b""[..]), (&http, &b"GET http://a"[..]), (&http, &b"CONNECT 127.0.0.1:1 HTTP/1.1\r\nHost:"[..])] {
+            if let Ok(mut s) = TcpStream::connect(addr).await {
+                let _ = s.write_all(pre).await;
+                held.push(s);
+            }
+        }
+        tokio::time::sleep(Duration::from_millis(100)).await;
         // afterwards: both listeners still serve well-formed requests, and nothing was left behind
         let ok_socks = matches!(netkit::socks5_connect(&socks, &SocksDest::V4(std::net::Ipv4Addr::new(127, 33, 0, 2), tport), Duration::from_secs(10)).await, Ok((_, 0)));
         if !ok_socks {
-            rep.violate("robustness", "socks5_listener", "well_formed_request_fails_after_hostile_input", "a well-formed CONNECT was not served after the hostile connections".to_string(), json!({"kind": "c20-listeners"}));
+            rep.violate("robustness", "socks5_listener", "well_formed_request_fails_after_hostile_input", "a well-formed CONNECT was not served after the hostile connections, with six stalled connections still open".to_string(), json!({"kind": "c20-listeners"}));
         }
         let ok_http = async {
             let mut s = TcpStream::connect(&http).await.ok()?;
@@ -636,8 +646,9 @@ pub fn run_loopback(ctx: Ctx) -> Report {
         }
         .await;
         if ok_http != Some(true) {
-            rep.violate("robustness", "http_listener", "well_formed_request_fails_after_hostile_input", "a well-formed CONNECT was not served after the hostile connections".to_string(), json!({"kind": "c20-listeners"}));
+            rep.violate("robustness", "http_listener", "well_formed_request_fails_after_hostile_input", "a well-formed CONNECT was not served after the hostile connections, with six stalled connections still open".to_string(), json!({"kind": "c20-listeners"}));
         }
+        drop(held);
         tokio::time::sleep(Duration::from_secs(3)).await;
         let mut after = run::alive_tasks();
         // a hostile request may have started an open that is still running its course (the server's connect
